@@ -73,7 +73,9 @@ Record prims := mkPrims {
   b64e : bytes -> bytes;
   b64d : bytes -> option bytes;               (* base64.b64decode (lenient); None = binascii.Error *)
   utf8_ok : bytes -> bool;                    (* bytes.decode() succeeds *)
-  seed_ok : bytes -> bool;                    (* Mnemonic().mnemonic_decode does not raise *)
+  addr_of_seed : bytes -> bytes;              (* Account.get_private_key_from_seed(ledger, seed, '').public_key.address *)
+  addr_of_pub : bytes -> bytes;               (* from_extended_key_string(ledger, xpub).address *)
+  seed_ok : bytes -> bool;                    (* Mnemonic().mnemonic_decode does not raise: only the OLD seed check *)
   xparse : bytes -> xres;
   jstr : bytes -> bytes;                      (* json.dumps of one str (ensure_ascii) *)
   scrypt : bytes -> bytes -> N -> N -> N -> bytes;   (* passphrase salt n r p *)
@@ -303,7 +305,8 @@ Definition decrypt_seed (pw : bytes) (a : account) : option bytes * res bytes :=
     | Err e => (a_iv_seed a, Err e)
     | Ok (sd, iv) =>
         if nonempty sd then
-          if seed_ok P sd then (Some iv, Ok sd) else (Some iv, Err EValueError)
+          (* the decrypted seed must regenerate this account's public key *)
+          if bytes_eqb (addr_of_seed P sd) (addr_of_pub P (a_pub a)) then (Some iv, Ok sd) else (Some iv, Err EValueError)
         else (Some iv, Ok [])
     end
   else (a_iv_seed a, Ok []).
@@ -438,13 +441,21 @@ Definition is_encrypted (w : wallet) : bool :=
 
 Inductive uout := UTrue | UFalse | UExc (e : exc).
 
+(* Wallet.unlock: when a later account answers False the accounts decrypted by this call are encrypted again
+   (Account.encrypt(password); the init vectors remembered by decrypt are reused, no randomness is drawn).
+   An exception escaping from account.decrypt (Base58Error) skips that. *)
 Fixpoint unlock_accounts (pw : bytes) (l : list account) : uout * list account :=
   match l with
   | [] => (UTrue, [])
   | a :: r =>
       if a_encrypted a then
         match account_decrypt pw a with
-        | (DTrue, a') => let (o, r') := unlock_accounts pw r in (o, a' :: r')
+        | (DTrue, a') =>
+            let (o, r') := unlock_accounts pw r in
+            match o with
+            | UFalse => (UFalse, fst (account_encrypt pw [] a') :: r')
+            | _ => (o, a' :: r')
+            end
         | (DFalse, a') => (UFalse, a' :: r)
         | (DExc e, a') => (UExc e, a' :: r)
         end
